@@ -20,6 +20,7 @@ Decided (structural necessary conditions; networkx's search itself is trusted):
  Ra alias mutation: a local that still names a list of another object (not copied) is never mutated in place.
  Rn arg roles     : a variable named like a parameter of the callee is handed to that parameter (no exchanged roles).
  R8 request keys  : requests_from_json reads every plainly copied field (source, destination, ...) from the key of the same name.
+ R9 end trims     : source-first / destination-last entries are trimmed independently, node and flag together.
 """
 import ast
 
@@ -387,6 +388,15 @@ def r8_endpoints_loaded(ctx):
     ctx.need('R8.request-keys', 4)
 
 
+def r9_end_trims(ctx):
+    """R9: a route list naming its own source first / destination last is trimmed at both ends independently, node and hop flag
+    together (JSON requests)"""
+    from .common import end_trims_rule
+    end_trims_rule(ctx, 'R9.end-trims', [ctx.repo.func(RQ, 'correct_json_route_list')],
+                   'the hop flags would be shifted against the hops, or an end transceiver kept as a constraint')
+    ctx.need('R9.end-trims', 1)
+
+
 from ..memo import rule_for as _memo_rule
 
 RULES_MEMO = ('Rm.memo', _memo_rule('C11', 'a route computed for another request or topology would be returned'))
@@ -397,4 +407,4 @@ from ..presence import rule_for as _presence_rule
 RULES_PRESENCE = ('Rp.presence', _presence_rule('C11', 'a legal zero would be read as missing'))
 
 RULES = [('R1.metric', r1_metric), ('R2.outcomes', r2_outcomes), ('R3.reasons', r3_reasons), ('R4.route-lists', r4_route_lists),
-         ('R5.helpers', r5_helpers), RULES_MEMO, RULES_PRESENCE, ('R6.group-constraints', r6_group_constraints), ('R7.same-request', r7_same_request), ('Ra.alias-mutation', ra_alias), ('Rn.arg-roles', rn_arg_roles), ('R8.request-keys', r8_endpoints_loaded)]
+         ('R5.helpers', r5_helpers), RULES_MEMO, RULES_PRESENCE, ('R6.group-constraints', r6_group_constraints), ('R7.same-request', r7_same_request), ('Ra.alias-mutation', ra_alias), ('Rn.arg-roles', rn_arg_roles), ('R8.request-keys', r8_endpoints_loaded), ('R9.end-trims', r9_end_trims)]
